@@ -579,6 +579,10 @@ class ExprMixin(object):
             if st.entails_ge(la) or st.entails_ge(lb):
                 st = st.assume_ge(Lin.sym(r))
             return VInt(Lin.sym(r)), st
+        if isinstance(op, ast.RShift) and lb.is_const() and 0 <= lb.c <= 64:
+            return self.int_binop(ctx, st, ast.FloorDiv(), la, Lin.const(1 << lb.c), node)
+        if isinstance(op, ast.LShift) and lb.is_const() and 0 <= lb.c <= 64:
+            return VInt(la.scale(1 << lb.c)), st
         if isinstance(op, ast.RShift):
             r = ("shr", la.key(), lb.key())
             if st.entails_ge(la):
